@@ -19,8 +19,8 @@ import (
 	"github.com/andydunstall/piko/client"
 	"github.com/andydunstall/piko/forward"
 	"github.com/andydunstall/piko/pkg/log"
-	"github.com/andydunstall/piko/server/config"
 	pws "github.com/andydunstall/piko/pkg/websocket"
+	"github.com/andydunstall/piko/server/config"
 
 	"verif/harness/vlib"
 )
